@@ -252,6 +252,13 @@ def kv_models(src_codec, dst_codec, same_metric):
         pos = st.env["cursors"][eng.deref(a[0]).data["id"]]
         if pos is None or pos not in st.env["kv"]:
             return one(mk_ok(z3.BoolVal(False)))
+        if st.env.get("db_fault_at") is not None:
+            import e2_build
+
+            def effect(s2):
+                del s2.env["kv"][pos]
+                s2.env["log"].append(("del_current", pos))
+            return e2_build.faulty_write(eng, st, effect, lambda _: z3.BoolVal(True))
         del st.env["kv"][pos]
         st.env["log"].append(("del_current", pos))
         return one(mk_ok(z3.BoolVal(True)))
